@@ -93,12 +93,15 @@ func runC19(c *CaseCtx) {
 	n := 15 + r.Intn(tier(c.Tier, 25, 60))
 	if manyTxPerSegment {
 		g.MaxOps = 1
+		g.BigVals = false // small records: the segment's transaction-id index grows beyond one node
 		n += 25
 	}
 	for i := 0; i < n; i++ {
 		x := r.Intn(100)
 		var t TxSpec
 		switch {
+		case manyTxPerSegment && i > 12 && i%16 == 0:
+			t = g.BulkKVTx(2 + r.Intn(2))
 		case x < 6:
 			steps = append(steps, c19Step{Reopen: true})
 			c.Log("reopen")
